@@ -57,3 +57,14 @@
             (= (select (Kind h) (sla a)) KNARR)))
        (=> ((_ is VMp) a) (and (<= 0 (mpi a)) (< (mpi a) (next h))
             (=> (< 0 (mpi a)) (= (select (Kind h) (mpi a)) KNMAP))))))
+
+; element k of a native slice value
+; (the element converted to `any`: a typed element is re-wrapped by its flavour, exactly as the
+; engine reads typed slots)
+(define-fun rawAt ((h Heap) (v Val) (k Int)) Val
+  (let ((raw (select (select (Mem h) (sla v)) (+ (slo v) k))))
+    (ite (= (slf v) 4) (VStr (vstr raw)) (ite (= (slf v) 5) (VBool (vbool raw))
+    (ite (= (slf v) 6) (VInt (vint raw)) (ite (= (slf v) 7) (VFloat (vfloat raw)) raw))))))
+; typed native slices / maps (flavours 2..7) hold only supported element types
+(assert (forall ((a Val)) (! (=> (and ((_ is VSl) a) (<= 2 (slf a)) (<= (slf a) 7)) (supp a)) :pattern ((supp a)))))
+(assert (forall ((a Val)) (! (=> (and ((_ is VMp) a) (<= 2 (mpf a)) (<= (mpf a) 7)) (supp a)) :pattern ((supp a)))))
